@@ -2,8 +2,10 @@ package main
 
 import (
 	"bytes"
+	"encoding/base64"
 	"fmt"
 	"strings"
+	"sync"
 
 	"filippo.io/age"
 	"verifharness/h"
@@ -253,4 +255,97 @@ func runC06(cx *ctx) {
 				Note: fmt.Sprintf("%d files in one history; model-checked file %d", nFiles, k)}
 		})
 	}
+	// files written CONCURRENTLY in one process (real CSPRNG, no tape): every file key, payload nonce, ephemeral share
+	// and salt is a separate draw, so no 16-byte secret may occur twice anywhere in the batch
+	for rep := 0; rep < cx.n(2, 12); rep++ {
+		rr := r.Fork()
+		cx.ru.Do(func() *h.Case {
+			x := newX25519(rr)
+			workers, per := 16, 120
+			type obs struct {
+				vals []string
+				err  error
+			}
+			res := make([][]obs, workers)
+			var wg sync.WaitGroup
+			for w := 0; w < workers; w++ {
+				w := w
+				wg.Add(1)
+				go func() {
+					defer wg.Done()
+					for i := 0; i < per; i++ {
+						var o obs
+						cap := &capturingRecipient{}
+						var recs []age.Recipient
+						if (w+i)%4 == 0 {
+							sr, _ := age.NewScryptRecipient("pw")
+							sr.SetWorkFactor(1)
+							recs = []age.Recipient{sr}
+						} else {
+							recs = []age.Recipient{x.rec, cap}
+						}
+						var buf bytes.Buffer
+						wr, err := age.Encrypt(&buf, recs...)
+						if err == nil {
+							_, err = wr.Write([]byte("x"))
+						}
+						if err == nil {
+							err = wr.Close()
+						}
+						if err != nil {
+							o.err = err
+							res[w] = append(res[w], o)
+							continue
+						}
+						hd, _, payload := splitHeader(buf.Bytes())
+						o.vals = append(o.vals, "nonce "+h.Hex(payload[:16]))
+						if cap.fileKey != nil {
+							o.vals = append(o.vals, "file key "+h.Hex(cap.fileKey))
+						}
+						for _, st := range hd.Recipients {
+							switch st.Type {
+							case "X25519":
+								o.vals = append(o.vals, "ephemeral share "+st.Args[0])
+							case "scrypt":
+								if sb, err := base64.RawStdEncoding.DecodeString(st.Args[0]); err == nil {
+									o.vals = append(o.vals, "salt "+h.Hex(sb))
+								}
+							}
+						}
+						res[w] = append(res[w], o)
+					}
+				}()
+			}
+			wg.Wait()
+			oracle := ""
+			seen := map[string]string{} // secret bytes (any role) -> where
+			n := 0
+			for w := range res {
+				for i, o := range res[w] {
+					if o.err != nil && oracle == "" {
+						oracle = "concurrent Encrypt failed: " + o.err.Error()
+					}
+					for _, v := range o.vals {
+						n++
+						secret := v[strings.LastIndex(v, " ")+1:]
+						where := fmt.Sprintf("%s of file %d/%d", v[:strings.LastIndex(v, " ")], w, i)
+						if prev, ok := seen[secret]; ok && oracle == "" {
+							oracle = fmt.Sprintf("the same random value is the %s and the %s (files written concurrently)", prev, where)
+						}
+						seen[secret] = where
+					}
+				}
+			}
+			return &h.Case{Kind: "concurrent-batch", Impl: fmt.Sprintf("%d secrets", n), Oracle: oracle, NonTrivial: true,
+				Note: fmt.Sprintf("%d goroutines x %d files", workers, per)}
+		})
+	}
+}
+
+// capturingRecipient records the file key it is asked to wrap (and contributes a harmless stanza)
+type capturingRecipient struct{ fileKey []byte }
+
+func (c *capturingRecipient) Wrap(fileKey []byte) ([]*age.Stanza, error) {
+	c.fileKey = append([]byte(nil), fileKey...)
+	return []*age.Stanza{{Type: "capture", Args: []string{"x"}, Body: nil}}, nil
 }
